@@ -13,14 +13,25 @@ Notation RQ := (RQ et).
 Ltac qoign := apply qign_out_ign; repeat split; reflexivity.
 Ltac dsync := eapply Q_desync; eassumption.
 
+(* assertions under which a connection may be closed: only that connection is exempt *)
+Definition okx (xa : qxa) (cid : Z) : Prop :=
+  (forall c0, exempt xa c0 -> c0 = cid) /\ (forall c0, xa <> QRegd c0).
+
+Lemma okx_none : forall cid, okx QNone cid.
+Proof. intros cid. split; [intros c0 []|discriminate]. Qed.
+Lemma okx_x : forall cid, okx (QX cid) cid.
+Proof. intros cid. split; [cbn; auto|discriminate]. Qed.
+Lemma okx_xf : forall cid fd, okx (QXf cid fd) cid.
+Proof. intros cid fd. split; [cbn; auto|discriminate]. Qed.
+
 (* the close callback is announced *)
-Lemma RQ_close : forall W ops rf u p b s cid e,
-  RQ W ops QNone rf u (p, b) s ->
+Lemma RQ_close : forall W ops rf u p b s cid e xa, okx xa cid ->
+  RQ W ops xa rf u (p, b) s ->
   c_opened (getc s cid) = true -> alookup (c_fd (getc s cid)) (l_reg s) <> None ->
   exists x', qstep et (p, b) (EOut (obs "cb" [ASym "close"; AInt cid; e])) = Some x' /\
   RQ (cid :: W) ops QNone rf u x' (set_reg s (aremove (c_fd (getc s cid)) (l_reg s))).
 Proof.
-  intros W ops rf u p b s cid e HR Ho Hr.
+  intros W ops rf u p b s cid e xa Hxa HR Ho Hr.
   set (p' := mkP (p_et p) (p_want_w p) (p_last p) (p_owed p) (p_dirty p) (cid :: p_dead p)).
   set (b' := if et then match r_full b with
                         | Some c => if c =? cid then mkR (r_cap b) None (r_cur b) else b
@@ -29,6 +40,7 @@ Proof.
   { unfold qstep, rdx, obs. cbn [fst snd prog_step]. subst b'. destruct et; [|reflexivity].
     cbn [rd_step]. destruct (r_full b) as [c|]; [destruct (c =? cid)|]; reflexivity. }
   pose proof (RQ_dead_add _ _ _ _ _ _ _ _ _ cid HR) as HD. fold p' in HD.
+  assert (Hnr : forall c, xa <> QRegd c) by (exact (proj2 Hxa)).
   destruct HD as [R1 R2 R3 R4 R5 R6 R7 R8 R9 R10 R11 R12 R13]. cbn [fst snd] in *.
   assert (Hdc : pdead p' cid = true) by (unfold pdead, p'; cbn [p_dead]; rewrite zmem_cons, Z.eqb_refl; reflexivity).
   constructor; cbn [fst snd set_reg l_reg l_next l_et]; auto.
@@ -39,17 +51,20 @@ Proof.
       destruct (R5 _ Ho) as [C|[C _]]; [|congruence].
       rewrite Ef in A. rewrite A in C. inversion C. left. reflexivity.
     + destruct (R5 _ Ho0) as [A|[A B]]; [left; exact A|right; split; [exact A|right; exact B]].
-  - intros fd c H. apply in_aremove in H. destruct H as [H N]. destruct (R6 _ _ H) as [A B]. split; [exact A|].
-    rewrite alookup_aremove. replace (fd =? c_fd (getc s cid)) with false by lia. exact B.
-  - intros fd c H D. apply in_aremove in H. destruct H as [H N]. rewrite getc_set_reg. eauto.
+  - intros fd c H. apply in_aremove in H. destruct H as [H N]. destruct (R6 _ _ H) as (A & B & C). split; [exact A|].
+    rewrite alookup_aremove, getc_set_reg. replace (fd =? c_fd (getc s cid)) with false by lia. auto.
+  - intros fd c H D. apply in_aremove in H. destruct H as [H N]. rewrite getc_set_reg.
+    destruct (R7 _ _ H D) as [A|[A|A]]; auto. exfalso. eapply Hnr; eauto.
   - intros c [<-|H]; rewrite getc_set_reg, alookup_aremove.
     + rewrite Z.eqb_refl. auto.
     + destruct (R8 _ H) as (A & B & C). rewrite B. destruct (_ =? _); auto.
-  - intros fd c H. apply in_aremove in H. destruct H as [H N]. rewrite getc_set_reg. eauto.
+  - intros fd c H. apply in_aremove in H. destruct H as [H N]. rewrite getc_set_reg. intros A D E F _.
+    apply (R11 fd c H A D E F). intros Ex. apply (proj1 Hxa) in Ex. subst c. rewrite Hdc in D. discriminate.
   - intros Het. subst b'. rewrite Het. destruct (R12 Het) as [A|(c & A & B & C & D)].
     + left. rewrite A. exact A.
     + rewrite B. destruct (Z.eqb_spec c cid) as [->|N]; [left; reflexivity|].
       right. exists c. rewrite getc_set_reg. repeat split; auto. intros [E|E]; [congruence|auto].
+  - exact I.
 Qed.
 
 Lemma RQ_release : forall W ops rf u x s cid,
@@ -65,15 +80,223 @@ Proof.
   - intros c. rewrite getc_setc. destruct (Z.eqb_spec c cid) as [->|N]; [congruence|auto].
   - intros c. rewrite getc_setc. destruct (Z.eqb_spec c cid) as [->|N]; [congruence|].
     intros Ho. destruct (R5 _ Ho) as [A|[A [B|B]]]; [left; exact A|congruence|right; auto].
+  - intros fd c H. destruct (R6 _ _ H) as (A & B & C). rewrite getc_setc.
+    destruct (Z.eqb_spec c cid) as [->|N]; [rewrite Hfd|]; auto.
   - intros fd c H D. rewrite getc_setc. destruct (Z.eqb_spec c cid) as [->|N]; [congruence|eauto].
     destruct (R7 _ _ H D) as [A|[A|A]]; auto. discriminate.
   - intros c H. rewrite getc_setc. destruct (R8 c (or_intror H)) as (A & B & C).
     destruct (Z.eqb_spec c cid) as [->|N]; [rewrite Hfd|]; auto.
-  - intros c H. rewrite getc_setc. destruct (Z.eqb_spec c cid) as [->|N]; [right; exact Hdead|auto].
+  - intros c fd H. destruct (R9 _ _ H) as (A & B & C). rewrite getc_setc.
+    destruct (Z.eqb_spec c cid) as [->|N]; [rewrite Hfd; auto|auto].
   - intros c. rewrite getc_setc. destruct (Z.eqb_spec c cid) as [->|N]; [intros; congruence|auto].
   - intros fd c H. rewrite getc_setc. destruct (Z.eqb_spec c cid) as [->|N]; [intros; congruence|].
-    intros A D E F _. apply (R11 fd c H A D E F). discriminate.
+    intros A D E F _. apply (R11 fd c H A D E F). cbn. tauto.
   - intros Het. destruct (R12 Het) as [A|(c & A & B & C & D)]; [left; exact A|].
     right. exists c. rewrite getc_setc. destruct (Z.eqb_spec c cid) as [->|N]; [exfalso; apply D; left; reflexivity|].
     repeat split; auto. intros H. apply D. right. exact H.
 Qed.
+
+Record MQ (f : nat) : Prop := mkMQ {
+  mq_close : forall cid e w r w' W ops rf xa, okx xa cid ->
+      QINV (RQ W ops xa rf) w -> el_close f cid e w = (r, w') -> QINV (RQ W ops QNone rf) w';
+  mq_drain : forall cid w W ops rf, In cid W -> QINV (RQ W ops QNone rf) w -> QINV (RQ W ops QNone rf) (close_drain f cid w);
+  mq_write : forall cid d w r w' W ops rf, QINV (RQ W ops QNone rf) w -> conn_write f cid d w = (r, w') -> QINV (RQ W ops QNone rf) w';
+  mq_wloop : forall cid d n w r w' W ops rf fd o, QINV (RQ W ops (QE cid fd o) rf) w ->
+      conn_write_loop f cid d n w = (r, w') ->
+      exists xa, okx xa cid /\ (snd r = true -> xa = QNone) /\ QINV (RQ W ops xa rf) w';
+  mq_wvloop : forall cid sg n w r w' W ops rf fd o, QINV (RQ W ops (QE cid fd o) rf) w ->
+      conn_writev_loop f cid sg n w = (r, w') ->
+      exists xa, okx xa cid /\ (snd r = true -> xa = QNone) /\ QINV (RQ W ops xa rf) w';
+  mq_writev : forall cid sg w r w' W ops rf, QINV (RQ W ops QNone rf) w -> conn_writev f cid sg w = (r, w') -> QINV (RQ W ops QNone rf) w';
+  mq_elwrite : forall cid sent w r w' W ops rf xa, xa = QNone \/ xa = QX cid ->
+      QINV (RQ W ops xa rf) w -> el_write f cid sent w = (r, w') -> QINV (RQ W ops QNone rf) w';
+  mq_handler : forall cid w r w' W ops rf, QINV (RQ W ops QNone rf) w -> handler f cid w = (r, w') -> QINV (RQ W ops QNone rf) w';
+  mq_hcall : forall cid call args w W ops rf, QINV (RQ W ops QNone rf) w -> QINV (RQ W ops QNone rf) (hcall f cid call args w)
+}.
+
+(* dropping the exemption of a connection for which nothing is demanded *)
+Lemma Q_unexempt_if : forall W ops rf w c,
+  (forall u p b, RQ W ops (QX c) rf u (p, b) (st w) ->
+     forall fd, In (fd, c) (l_reg (st w)) -> c_udp (wc w c) = false -> pdead p c = false -> pdirty p c = false ->
+     c_out (wc w c) <> [] -> served et p fd c) ->
+  QINV (RQ W ops (QX c) rf) w -> QINV (RQ W ops QNone rf) w.
+Proof. intros W ops rf w c H HI. eapply (Q_unexempt et W ops (QX c) rf w c); [cbn; auto|discriminate|exact H|exact HI]. Qed.
+
+Lemma Q_unexempt_dead : forall W ops rf w c, In c W ->
+  QINV (RQ W ops (QX c) rf) w -> QINV (RQ W ops QNone rf) w.
+Proof.
+  intros W ops rf w c Hin HI. apply (Q_unexempt_if W ops rf w c); [|exact HI].
+  intros u p b HR fd _ _ D. destruct (q_W _ _ _ _ _ _ _ _ HR c Hin) as [A _]. cbn [fst] in A. congruence.
+Qed.
+
+Lemma Q_unexempt_empty : forall W ops rf w c, c_out (wc w c) = [] ->
+  QINV (RQ W ops (QX c) rf) w -> QINV (RQ W ops QNone rf) w.
+Proof. intros W ops rf w c He HI. apply (Q_unexempt_if W ops rf w c); [|exact HI]. intros u p b HR fd _ _ _ _ N. congruence. Qed.
+
+Lemma Q_unexempt_closed : forall W ops rf w c, c_opened (wc w c) = false ->
+  QINV (RQ W ops (QX c) rf) w -> QINV (RQ W ops QNone rf) w.
+Proof.
+  intros W ops rf w c Ho HI. apply (Q_unexempt_if W ops rf w c); [|exact HI].
+  intros u p b HR fd Hin Hu D _ _. unfold wc in *.
+  destruct (q_regop _ _ _ _ _ _ _ _ HR fd c Hin D) as [A|[A|A]]; [congruence|congruence|discriminate].
+Qed.
+
+(* one connection's c_out changes while it is exempt *)
+Lemma Q_set_out_x : forall W ops rf w c o,
+  (c_out (wc w c) = [] -> o = []) ->
+  QINV (RQ W ops (QX c) rf) w -> QINV (RQ W ops (QX c) rf) (wsetc w c (c_set_out (wc w c) o)).
+Proof.
+  intros W ops rf w c o Ho HI. eapply Inv_wsetc; [exact HI|]. intros [] [p b] _ HR. unfold wc in *.
+  apply RQ_setc; auto; cbn [c_set_out c_opened c_udp c_out c_fd].
+  - intros A B D E. apply Ho. apply (q_nop _ _ _ _ _ _ _ _ HR); assumption.
+  - intros fd _ _ _ _ _ G. exfalso. apply G. reflexivity.
+  - discriminate.
+  - discriminate.
+Qed.
+
+Lemma close_drain_S : forall f, MQ f -> forall cid w W ops rf, In cid W ->
+  QINV (RQ W ops QNone rf) w -> QINV (RQ W ops QNone rf) (close_drain (S f) cid w).
+Proof.
+  intros f M cid w W ops rf Hin HI. cbn [close_drain].
+  destruct (c_out (wc w cid)) as [|b0 l0] eqn:Eout; [exact HI|]. rewrite <- Eout.
+  pose proof (Q_exempt _ _ _ _ _ cid HI) as HX.
+  destruct (sys_wr cid _ _ false w) as [k w1] eqn:Es.
+  pose proof (Q_sys_wr_gen et W ops rf (QX cid) (QX cid) (QX cid) (QX cid) cid _ _ _ _ _ _
+    ltac:(intros bs w0 _ H0; refine (Q_hand _ _ _ (QX cid) _ cid bs _ _ H0); intros _; left; reflexivity)
+    ltac:(intros w0 _ H0; exact (Q_owed _ _ _ _ _ "eagain" cid _ (or_introl eq_refl) H0))
+    ltac:(intros w0 _ H0; exact (Q_fail _ _ _ _ _ cid _ H0)) HX Es) as H1.
+  destruct k as [n extra|e|].
+  - destruct H1 as [_ H1]. apply (mq_drain _ M); [exact Hin|].
+    apply (Q_unexempt_dead W ops rf _ cid); [exact Hin|]. apply Q_set_out_x; [|exact H1]. intros ->. apply zdrop_nil.
+  - assert (H1' : QINV (RQ W ops (QX cid) rf) w1) by (destruct (is_eagain e); exact H1).
+    apply (Q_unexempt_dead W ops rf _ cid); assumption.
+  - apply Q_dead. exact H1.
+Qed.
+
+Lemma Q_ops_weaken : forall W ops ops' xa rf w, (forall c, In c ops' -> In c ops) ->
+  QINV (RQ W ops xa rf) w -> QINV (RQ W ops' xa rf) w.
+Proof.
+  intros W ops ops' xa rf w Hs HI. eapply Q_weaken; [|exact HI]. intros u x HR.
+  destruct HR as [R1 R2 R3 R4 R5 R6 R7 R8 R9 R10 R11 R12 R13]. constructor; auto.
+Qed.
+
+Lemma Q_ops_add : forall W ops xa rf w c, c_opened (wc w c) = true ->
+  QINV (RQ W ops xa rf) w -> QINV (RQ W ((c, c_fd (wc w c)) :: ops) xa rf) w.
+Proof.
+  intros W ops xa rf w c Ho HI. eapply Q_weaken; [|exact HI]. intros u x HR.
+  pose proof (q_opn _ _ _ _ _ _ _ _ HR c Ho) as Hlt.
+  destruct HR as [R1 R2 R3 R4 R5 R6 R7 R8 R9 R10 R11 R12 R13]. constructor; auto.
+  intros c0 fd [E|H]; [inversion E; subst; unfold wc in *; auto|auto].
+Qed.
+
+Lemma el_close_S : forall f, MQ f -> forall cid e w r w' W ops rf xa, okx xa cid ->
+  QINV (RQ W ops xa rf) w -> el_close (S f) cid e w = (r, w') -> QINV (RQ W ops QNone rf) w'.
+Proof.
+  intros f M cid e w r w' W ops rf xa Hxa HI E. cbn [el_close] in E.
+  assert (Hnoop : c_opened (wc w cid) = false \/ alookup (c_fd (wc w cid)) (l_reg (st w)) = None ->
+                  QINV (RQ W ops QNone rf) w).
+  { intros Hg. apply (Q_unexempt et W ops xa rf w cid (proj1 Hxa) (proj2 Hxa)); [|exact HI].
+    intros u p b HR fd Hin Hu D _ _. exfalso. unfold wc in *.
+    assert (Hq : forall A, xa = QRegd cid -> A) by (intros A Q; exfalso; eapply (proj2 Hxa); eauto).
+    destruct (q_regop _ _ _ _ _ _ _ _ HR fd cid Hin D) as [A|[A|A]]; [|congruence|apply Hq; exact A].
+    destruct (q_reg _ _ _ _ _ _ _ _ HR cid A) as [B|[B C]].
+    - destruct Hg; congruence.
+    - destruct (q_W _ _ _ _ _ _ _ _ HR cid C) as [D' _]. cbn [fst] in *. congruence. }
+  destruct (c_opened (wc w cid)) eqn:Eo; cbn [negb orb] in E; [|inversion E; subst; apply Hnoop; auto].
+  destruct (alookup (c_fd (wc w cid)) (l_reg (st w))) as [rc|] eqn:Er; [|inversion E; subst; apply Hnoop; auto].
+  clear Hnoop.
+  set (w2 := emit _ (with_st w _)) in E.
+  assert (H2 : QINV (RQ (cid :: W) ops QNone rf) w2).
+  { subst w2. eapply Inv_set_emit; [exact HI|reflexivity|].
+    intros [] [p b] _ HR. cbn [ustep]. unfold wc in *.
+    destruct (RQ_close _ _ _ _ _ _ _ cid (err_sym e) xa Hxa HR Eo) as [x' [Ex HR']]; [congruence|]. eauto. }
+  clearbody w2.
+  destruct (handler f cid w2) as [[act rep] w3] eqn:Eh.
+  pose proof (mq_handler _ M _ _ _ _ _ _ _ H2 Eh) as H3.
+  assert (HinW : In cid (cid :: W)) by (left; reflexivity).
+  pose proof (mq_drain _ M cid _ _ _ _ HinW H3) as H4.
+  set (w4 := close_drain f cid w3) in *. clearbody w4.
+  set (fd4 := c_fd (wc w4 cid)) in *.
+  assert (H5 : QINV (RQ W ops (QNoReg fd4) rf) (wsetc w4 cid (c_release (wc w4 cid)))).
+  { eapply Inv_wsetc; [exact H4|]. intros [] x _ HR. apply RQ_release. exact HR. }
+  assert (Hfree : forall u p b s, RQ W ops (QNoReg fd4) rf u (p, b) s ->
+     forall c, In (fd4, c) (l_reg s) -> c_udp (getc s c) = false -> pdead p c = false -> c_out (getc s c) <> [] -> False).
+  { intros u p b s HR c Hin _ _ _. pose proof (q_x _ _ _ _ _ _ _ _ HR) as X. cbn [qsem] in X.
+    eapply noreg_free; eauto. }
+  destruct (epctl "del" _ false false _) as [r0 w6] eqn:E6.
+  pose proof (Q_epctl_free _ _ _ _ _ _ _ _ _ _ _ _ Hfree H5 E6) as H6.
+  destruct (sys "close" _ w6) as [k1 w7] eqn:E7.
+  pose proof (Q_sys_close _ _ _ _ _ _ _ _ _ Hfree H6 E7) as H7.
+  assert (H7' : QINV (RQ W ops QNone rf) w7) by (eapply Q_xa_drop; [| |exact H7]; [intros c []|intros; discriminate]).
+  destruct (match r0 with RNil => _ | _ => true end); [inversion E; subst; exact H7'|].
+  destruct act; [inversion E; subst; exact H7'| |inversion E; subst; exact H7'].
+  eapply (mq_close _ M); [apply okx_none|exact H7'|exact E].
+Qed.
+
+(* ------------------------------------------------------------------ *)
+(* the write loops *)
+
+Lemma Q_reanchor : forall W ops rf c fd o w,
+  QINV (RQ W ops (QE c fd o) rf) w -> QINV (RQ W ops (QE c (c_fd (wc w c)) o) rf) w.
+Proof.
+  intros W ops rf c fd o w HI. eapply (Q_xa_weaken et W ops (QE c fd o)); [intros; discriminate|intros c0 []| |exact HI].
+  intros u x HR. pose proof (q_x _ _ _ _ _ _ _ _ HR) as X. cbn [qsem] in *. unfold wc. tauto.
+Qed.
+
+(* the buffer of a connection inside a write is filled: it is exempt until somebody answers for it *)
+Lemma Q_fill_x : forall W ops rf c fd o out w,
+  QINV (RQ W ops (QE c fd o) rf) w ->
+  QINV (RQ W ops (QXf c fd) rf) (wsetc w c (c_set_out (wc w c) out)).
+Proof.
+  intros W ops rf c fd o out w HI. eapply Inv_wsetc; [exact HI|]. intros [] [p b] _ HR. unfold wc.
+  pose proof (q_x _ _ _ _ _ _ _ _ HR) as X. cbn [qsem fst] in X. destruct X as (X1 & X2 & X3 & X4 & X5).
+  assert (HR1 : RQ W ops (QXf c fd) rf tt (p, b) (st w)).
+  { eapply RQ_xa_weaken; [exact HR|discriminate|intros c0 []|]. cbn [qsem fst]. auto. }
+  apply RQ_setc; auto; cbn [c_set_out c_opened c_udp c_fd c_out].
+  - intros A _ D _. destruct X5 as [E|E]; [congruence|]. unfold pdead in D. congruence.
+  - intros fd0 _ _ _ _ _ G. exfalso. apply G. reflexivity.
+  - discriminate.
+  - discriminate.
+Qed.
+
+Lemma Q_fill_et : forall W ops rf c fd out w, l_et (st w) = true ->
+  QINV (RQ W ops (QE c fd true) rf) w ->
+  QINV (RQ W ops QNone rf) (wsetc w c (c_set_out (wc w c) out)).
+Proof.
+  intros W ops rf c fd out w Hb HI.
+  pose proof (Q_fill_x _ _ _ _ _ _ out _ HI) as H1.
+  (* redo it keeping the owed flag *)
+  clear H1. eapply Inv_wsetc; [exact HI|]. intros [] [p b] _ HR. unfold wc.
+  pose proof (q_x _ _ _ _ _ _ _ _ HR) as X. cbn [qsem fst] in X. destruct X as (X1 & X2 & X3 & X4 & X5).
+  assert (HR1 : RQ W ops (QXf c fd) rf tt (p, b) (st w)).
+  { eapply RQ_xa_weaken; [exact HR|discriminate|intros c0 []|]. cbn [qsem fst]. auto. }
+  eapply (RQ_unexempt et _ _ (QXf c fd) _ _ _ _ _ c); [|cbn; auto|discriminate|].
+  - apply RQ_setc; auto; cbn [c_set_out c_opened c_udp c_fd c_out].
+    + intros A _ D _. destruct X5 as [E|E]; [congruence|]. unfold pdead in D. congruence.
+    + intros fd0 _ _ _ _ _ G. exfalso. apply G. reflexivity.
+    + discriminate.
+    + discriminate.
+  - intros fd0 _ _ _ _ _. unfold served. destruct (q_et _ _ _ _ _ _ _ _ HR) as [E _]. rewrite <- E, Hb. auto.
+Qed.
+
+(* write interest registered for an exempt connection (level-triggered) *)
+Lemma Q_arm_x : forall W ops rf c fd op e w r w', op_code op <> 2 -> l_et (st w) = false ->
+  QINV (RQ W ops (QXf c fd) rf) w -> epctl op fd true e w = (r, w') ->
+  QINV (RQ W ops (match r with RNil => QNone | _ => QXf c fd end) rf) w'.
+Proof.
+  intros W ops rf c fd op e w r w' Hop Hb HI E.
+  pose proof (Q_epctl_arm _ _ _ _ _ _ _ _ _ _ _ Hop HI E) as H.
+  pose proof (epctl_et _ _ _ _ _ _ _ E) as Hm.
+  eapply Inv_weaken; [|exact H]. intros [] [p b] Hh [HR Hw]. cbn [fst] in Hw.
+  destruct r; try exact HR.
+  eapply (RQ_unexempt et _ _ (QXf c fd) _ _ _ _ _ c); [exact HR|cbn; auto|discriminate|].
+  intros fd0 Hin _ _ _ _. unfold served.
+  destruct (q_et _ _ _ _ _ _ _ _ HR) as [E1 _]. assert (Het : et = false) by congruence. rewrite Het.
+  pose proof (q_x _ _ _ _ _ _ _ _ HR) as X. cbn [qsem] in X. destruct X as (_ & X2 & _).
+  destruct (q_reglt _ _ _ _ _ _ _ _ HR _ _ Hin) as (_ & _ & F). rewrite F in X2. subst fd0.
+  apply Hw; auto.
+Qed.
+
+Lemma Q_qe_drop : forall W ops rf c fd o w, QINV (RQ W ops (QE c fd o) rf) w -> QINV (RQ W ops QNone rf) w.
+Proof. intros W ops rf c fd o w HI. eapply (Q_xa_drop et W ops (QE c fd o)); [intros c0 []|discriminate|exact HI]. Qed.
+
